@@ -1119,6 +1119,8 @@ def mon_c16(ix: Index):  # noqa: C901, PLR0912
             n += 1
             if firstval.setdefault(e["path"], e["val"]) != e["val"]:
                 kind = "failed-item-error-type" if "CallableRuntimeError" in firstval[e["path"]] or "CallableRuntimeError" in e["val"] else "value"
+                if kind == "value" and _started_items_drift(firstval[e["path"]], e["val"]):
+                    kind = "summarised-batch-decided-early/branch-recorded-after-the-decision"
                 out.append(V("C16", "C16/replay-children-rebuilt-value-differs/%s" % kind, "%s rebuilt value differs from the first one" % e["path"], e["i"]))
         if e["kind"] == "fn_enter" and e.get("fnkind") in ("step", "check", "submitter") and e.get("st") in TERMINAL:
             out.append(V("C16", "C16/completed-step-reexecuted-during-replay", "%s" % e["path"], e["i"]))
@@ -1239,7 +1241,12 @@ def mon_c09(ix: Index):  # noqa: C901, PLR0912
                 if first_batch is None:
                     first_batch = sig
                 elif sig != first_batch:
-                    out.append(V("C09", "C09/replayed-batch-result-differs", "%s delivered a different BatchResult on replay" % path, e["i"]))
+                    key = "C09/replayed-batch-result-differs"
+                    mech = _early_summarised_drift(first_batch, sig, e)
+                    if mech:
+                        key += "/" + mech
+                    out.append(V("C09", key, "%s delivered a different BatchResult on replay (first %s, now %s)"
+                                 % (path, [it[1] for it in first_batch[0]], [it[1] for it in sig[0]]), e["i"]))
                 if [it[0] for it in items] != list(range(nb)):
                     out.append(V("C09", "C09/item-count-or-order-wrong", "%s returned indices %s for %d inputs" % (path, [it[0] for it in items], nb), e["i"]))
                     continue
@@ -1312,6 +1319,45 @@ def mon_c09(ix: Index):  # noqa: C901, PLR0912
                 out.append(V("C09", "C09/did-not-return-while-branches-still-running", "%s had not returned although the policy was decided; blocked branch %s had to be released" % (path, e["name"]), e["i"]))
     ix.r.setdefault("stats", {})["c09_batches"] = n_checked
     return out
+
+
+def _started_items_drift(v1: str, v2: str) -> bool:
+    """Same mechanism seen on canonical BatchResult texts: identical but for items STARTED at first and SUCCEEDED/FAILED on replay,
+    with an early completion reason."""
+    if not (v1.startswith("br{") and v2.startswith("br{")):
+        return False
+    r1, r2 = v1.rsplit("|", 1)[-1], v2.rsplit("|", 1)[-1]
+    if r1 != r2 or not r1.startswith(("MIN_SUCCESSFUL_REACHED", "FAILURE_TOLERANCE_EXCEEDED")):
+        return False
+    s1 = re.split(r"(?=bi\(\d+,[A-Z_]+,)", v1.rsplit("|", 1)[0])
+    s2 = re.split(r"(?=bi\(\d+,[A-Z_]+,)", v2.rsplit("|", 1)[0])
+    if len(s1) != len(s2):
+        return False
+    drift = 0
+    for a, b in zip(s1, s2):
+        if a == b:
+            continue
+        ma, mb = re.match(r"bi\((\d+),([A-Z_]+),", a), re.match(r"bi\((\d+),([A-Z_]+),", b)
+        if not (ma and mb and ma.group(1) == mb.group(1) and ma.group(2) == "STARTED" and mb.group(2) in ("SUCCEEDED", "FAILED")):
+            return False  # some other difference: not this mechanism
+        drift += 1
+    return drift > 0
+
+
+def _early_summarised_drift(first_sig, sig, e):
+    """Mechanism class of a first-run/replay difference: the batch was decided early (minimum reached / tolerance exceeded), its
+    result was oversized (rebuilt from the recorded children on replay), and every differing item was reported STARTED by the
+    first run but has a completion record, i.e. a branch whose record was accepted before the parent's completion record although
+    the executor had not processed it when it built the first result."""
+    if not e.get("rc") or first_sig[1] != sig[1] or sig[1] not in ("MIN_SUCCESSFUL_REACHED", "FAILURE_TOLERANCE_EXCEEDED"):
+        return None
+    a, b = first_sig[0], sig[0]
+    if len(a) != len(b):
+        return None
+    diff = [(x, y) for x, y in zip(a, b) if x != y]
+    if diff and all(x[1] == "STARTED" and y[1] in ("SUCCEEDED", "FAILED") and x[0] == y[0] for x, y in diff):
+        return "summarised-batch-decided-early/branch-recorded-after-the-decision"
+    return None
 
 
 def first_decided(cfgd, comp, nb):
